@@ -94,3 +94,11 @@ Definition regex_cfg (custom : str) : ecfg :=
   {| e_esc := Some c_bs; e_multi := Some [c_dot; c_star]; e_single := Some [c_dot];
      e_add := regex_meta ++ custom; e_filter := [] |}.
 Definition to_regex (custom : str) (v : sstring) : outcome str := convert (regex_cfg custom) v.
+
+(* TextQueryBackend.convert_value_str l.1800-1812 for a backend that always quotes:
+   str_quote is added to the escaped characters, the result is wrapped in quotes *)
+Definition with_quote (K : ecfg) (q : char) : ecfg :=
+  {| e_esc := e_esc K; e_multi := e_multi K; e_single := e_single K;
+     e_add := q :: e_add K; e_filter := e_filter K |}.
+Definition convert_quoted (K : ecfg) (q : char) (v : sstring) : outcome str :=
+  obind (convert (with_quote K q) v) (fun body => Ok (q :: body ++ [q])).
